@@ -152,8 +152,11 @@ def gen_case(g, tier, idx):
         bel = [hexd(means[c][i]) for c in range(k) for i in range(n)] \
             + [hexd(Ps[c][i][j]) for c in range(k) for j in range(n) for i in range(n)] + [hexd(w) for w in outw]
         yt = [hexd(v) for v in y]
-        htoks += [str(k)] + [str(f) for f in fail] + yt + bel
-        singles.append(" ".join(["sukf"] + head + [str(k)] + ut + [str(kind)] + [str(f) for f in fail] + mid + yt + Rt + bel))
+        # the noise covariance reported in this call: rscale * R (a power of two: exact), time-varying noise
+        rscale = 1.0 if ci == 0 else r.choice([1.0, 0.5, 2.0, 4.0, 0.25])
+        Rc = vlib.fmt_mat_cm([[v * rscale for v in row] for row in R])
+        htoks += [str(k)] + [str(f) for f in fail] + [hexd(rscale)] + yt + bel
+        singles.append(" ".join(["sukf"] + head + [str(k)] + ut + [str(kind)] + [str(f) for f in fail] + mid + yt + Rc + bel))
         ks.append(k); fails.append(list(fail))
     meta = {"style": style, "n": n, "msz": msz, "bs": bs, "red": red, "ks": ks, "kind": kind, "fails": fails,
             "ut": [alpha, beta, kap], "calls": ncalls}
@@ -479,7 +482,7 @@ def run(ctx):
     binary = vlib.build_harness("h_sukf")
     cases = corpus_cases()       # (harness line, [single-call lines], meta)
     g = ctx.gen("sukf")
-    for i in range(ctx.n(90, 2500)):
+    for i in range(ctx.n(160, 2500)):
         cases.append(gen_case(g, ctx.tier, i))
     if ctx.replay:
         rep = json.load(open(ctx.replay))["replay"]
@@ -502,7 +505,8 @@ def run(ctx):
             except (AssertionError, IndexError, ValueError):
                 pass
         dmap.append(None)
-    dout = vlib.run_driver(dlines)
+    from checks.c15 import run_driver_parallel
+    dout = run_driver_parallel(dlines)
     stats, notes, hist, branch = {}, {}, {}, {}
     distinct, nontrivial = set(), set()
     corr_bad, prop_bad = [], []
